@@ -6,7 +6,7 @@
    The comparison is by conversion: renamed locals or a let-bound intermediate value leave the
    terms convertible; a changed test, a reordered statement with another meaning, a dropped
    nil filter, another sort function make these proofs fail. *)
-From Eino Require Import Base.Util Model.ConcatTable Model.Concat Model.ConcatGenLib.
+From Eino Require Import Base.Util Model.ConcatTable Model.Concat Model.ConcatStream Model.ConcatGenLib.
 From Eino Require Model.ConcatCodeRef Gen.ConcatCode.
 
 Section Agree.
@@ -37,3 +37,19 @@ Proof. intros. reflexivity. Qed.
 Theorem gen_tc_sort_stable_agrees :
   Gen.ConcatCode.gen_tc_sort_stable = Model.ConcatCodeRef.gen_tc_sort_stable.
 Proof. reflexivity. Qed.
+
+Theorem gen_concat_items_shape_agrees :
+  Gen.ConcatCode.gen_concat_items_shape = Model.ConcatCodeRef.gen_concat_items_shape.
+Proof. reflexivity. Qed.
+
+Theorem gen_concatStreamReader_agrees : forall X zero ci s,
+  Gen.ConcatCode.gen_concatStreamReader X zero ci s = Model.ConcatCodeRef.gen_concatStreamReader X zero ci s.
+Proof. intros. reflexivity. Qed.
+
+Theorem gen_ConcatMessageStream_agrees : forall X zero ci s,
+  Gen.ConcatCode.gen_ConcatMessageStream X zero ci s = Model.ConcatCodeRef.gen_ConcatMessageStream X zero ci s.
+Proof. intros. reflexivity. Qed.
+
+Theorem gen_concatToolCalls_agrees : forall ord chunks,
+  Gen.ConcatCode.gen_concatToolCalls ord chunks = Model.ConcatCodeRef.gen_concatToolCalls ord chunks.
+Proof. intros. reflexivity. Qed.
